@@ -33,4 +33,52 @@ CHECKS = {
         "text": "Kernel-checked theorem from the time-stamped burn invariant: the returned orientation is full, acyclic (burn time is a topological order), q is the only source, every other vertex holds fewer chips than its in-degree, in-degrees sum to |E|; unwinnable verdict implies vertex-wise domination by in-degree minus one. Tie: orientation, in/out counters and fullness of every EWD result compared edge by edge, and the certificate re-checked directly on the implementation's output.",
         "note": "Same hypotheses as C01 (well-formed graph, BFS cover, run returns).",
     },
+    "C03": {
+        "text": "Kernel-checked theorems: the rank relation is functional and a class invariant; good degrees are downward closed; the enumeration of effective divisors of degree k is complete and sound; the plain-mode loop returns the Baker-Norine rank (-1 exactly for unwinnable inputs); optimized mode is exact on every branch that does not need Riemann-Roch; in the band where it switches to K-D the value is r(K-D)+deg D+1-g with r(K-D) exact (partial: Riemann-Roch itself is not proved). Tie: rank()/r() in both modes, four degree bands, worker pool real / stubbed / thread pool.",
+        "note": "PARTIAL for the band g..2g-2 in optimized mode and for the 'consequently Riemann-Roch' clause: decided on explored inputs by comparison with the plain mode (proved exact). The deg>2g-2 shortcut is likewise tied, not yet proved. Hypotheses: connected well-formed graph, BFS cover, runs return.",
+    },
+    "C04": {
+        "text": "Kernel-checked theorems: single game and strategy test are exactly winnability of placement minus one chip / rank>=1 (any placement); compute_gonality returns the least degree of an effective rank>=1 divisor if it is <= the cut-off and -1 otherwise, for both values of find_strategies; every reported strategy is effective, has exactly that many chips and beats every vertex; no smaller placement does; gonality <= |V|; per-sink Dhar strategy test exact. Tie: gonality with cut-offs 0..n+1, games, strategy tests, per-sink tests and minimal-strategy search on generated multigraphs.",
+        "note": "The per-sink minimal-strategy search (find_minimal_winning_strategies / enhanced_dhar_gonality_test) is tied by correspondence only; its exactness theorem is not yet proved.",
+    },
+    "C07": {
+        "text": "Kernel-checked theorem: linear_equivalence is True exactly when the divisors sit on the same multigraph and D1-D2 is in the Laplacian lattice (degree-0 winnability = equivalence to 0; optimized EWD exact); equivalence-relation laws, invariance under moves, degree obstruction. Tie: identical / script-related / same-degree-other-class / different-degree / one-side-zero pairs on the same object, an equal copy, a twin multigraph or another graph.",
+        "note": "Hypotheses: connected well-formed graph, BFS cover, the reduction run returns.",
+    },
+    "C10": {
+        "text": "Kernel-checked theorems: legality test = non-empty and every member has at least its out-degree; superstable = non-negative and no legal set = Dhar burn consumes everything; comparison operators = vertex-wise order on V-q (incomparable configurations refused / unequal); parking predicate rejects wrong lengths and out-of-range values; generated lists consist of parking functions; count = closed form checked by kernel evaluation for n<=5. Tie: every subset of V-q on generated configurations; superstable count vs exact determinant; K_(n+1) vs parking functions n<=4/5; all sequences over [0..n+1]^n.",
+        "note": "PARTIAL: 'number of superstables = det of the reduced Laplacian', 'K_(n+1) superstables = shifted parking functions' and '(n+1)^(n-1)' for all n are not proved; they are decided on the explored graphs / n only (labelled as tests).",
+    },
+    "C11": {
+        "text": "Kernel-checked invariant by induction over arbitrary histories of set_orientation (3 states, both endpoint orders, refused calls, flag refreshes): counters = total multiplicity pointing in/out, endpoints agree, up-to-date fullness flag correct; check_fullness exact; full orientation: in+out = valence, divisor = indeg-1 of degree g-1, divisor + reverse divisor = canonical; acyclic orientation divisor unwinnable (T9). Tie: generated histories with full digests after every step.",
+        "note": "reverse() rebuilding through the constructor is tied by correspondence; the identity is proved for any orientation whose states are the flipped ones.",
+    },
+    "C14": {
+        "text": "Kernel-checked theorems (least action): success implies apply(D0, script) = final effective divisor; success/failure and the script are independent of the visiting order; failure implies every non-negative clearing script needs more than 10|V| moves (so: unwinnable or capped); winnable divisors have clearing scripts. Tie: greedy under 3/16 hash seeds, budget-straddling inputs, certificate re-checked through the implementation's own apply.",
+        "note": "Caller's divisor untouched: store fact, observed through the argument digest.",
+    },
+    "C15": {
+        "text": "Kernel-checked theorems at dict level: rebuilding a graph from its canonical edge list gives the same multiplicities/valences/edge total; divisor and script round trips; decimal codec round-trips every integer (Std). Tie + fault enumeration: dict/JSON/TXT round trips for all four object types with hostile names and 10^30 magnitudes; every truncation point (sampled in quick, all in thorough) and single-byte corruptions must not raise, JSON prefixes read None, returned objects well-formed.",
+        "note": "PARTIAL: JSON text layer (CPython json), TXT tokenisation (strip/split/replace), file I/O and the damaged-file clause are runtime/library behaviour: explored per generated file, not proved. Orientation round trip is tied, not proved.",
+    },
+    "C16": {
+        "text": "Kernel-checked theorems for the in-place family: EWD (both modes) either leaves the divisor alone (shortcuts) or replaces it by a linearly equivalent divisor of the same degree; Dhar runs likewise; cached total stays right; queries never write the graph. Pure family: the model is functional; the code's behaviour is observed through digests of every argument after every call, a share of calls repeated on the same graph object.",
+        "note": "For the pure family the theorem is definitional and the assurance is the differential tie - stated as such.",
+    },
+    "C17": {
+        "text": "Kernel-checked theorems: verdict and reduced divisor do not depend on adjacency orders or fuel (uniqueness of q-reduced forms), the sink is not a function of any container order; Winnable, LinEq, IsRank, IsGonality, QReduced are carried along by every vertex renaming, the reduced divisor is renamed accordingly, the sink of a unique minimum is renamed. Tie: each input presented three ways under 3/16 hash seeds; cross-seed / cross-labelling comparison on the implementation itself.",
+        "note": "Hash seeds are an unbounded family: the theorem covers all orders, the tie samples seeds.",
+    },
+    "C18": {
+        "text": "Kernel-checked theorems: the recorder is not an input of the result; every recorded snapshot is linearly equivalent to the input and the last equals the returned divisor (both modes, all exits); element lists: one node per vertex with its chip count, exactly m edge elements per pair of multiplicity m with distinct ids, arrows exactly on oriented edges in the stored direction. Tie: recording on/off pairs, snapshot-by-snapshot trace comparison, snapshot independence, element lists for hyphen-free names.",
+        "note": "The Dash application (visualize(), callbacks, layout) is not modelled and not claimed.",
+    },
+    "C19": {
+        "text": "Regenerated from /repo on every run and re-checked by the kernel: closed-form translations = model; the five solids' vertex/edge/regularity counts; tetrahedron and octahedron table entries = gonality of the regenerated graph (verified search + certified hypotheses; cube and K_6 in the thorough tier); K_n closed form n=2..5; independence number maximal. Refutation of the multipartite formula (K2). Tie: bounds report on every connected simple graph n<=4/5 and families to 5/6, bracketed against the verified gonality; closed forms vs gonality of generated graphs.",
+        "note": "PARTIAL: K_n for all n, general multipartite formula, and the bounds (min degree, bramble-1, n-1, n-alpha, aggregates) are decided per explored graph against the verified search, not proved in general (treewidth <= gonality is research-level).",
+    },
+    "C20": {
+        "text": "Kernel-checked theorems on order-mirroring machines: set_fire refused iff some name is unknown, wherever it stands (validate-all-then-transfer); configuration refuses the sink; unknown vertices / non-positive amounts refused by every move; refused requests leave divisor, script, graph, orientation exactly as they were (at any point of a history); reverse/divisor on partial orientations refused touching only flags; constructors reject duplicates/unknown names; add_edges per edge (C13). Tie: histories with ~40% invalid requests of every listed kind, digests after every request.",
+        "note": "The substance is the tie (the machines are correct by the order of their checks); stated as such.",
+    },
 }
